@@ -19,9 +19,13 @@ def run(ctx):
         vcheck.sh([vcheck.TRANSLATOR_BIN, "-repo", vcheck.REPO, "-out", vcheck.GENERATED])
         ctx.obligations("NGF.Props.C09")
         ctx.obligations("NGF.Props.C09Wiring")
+        ctx.obligations("NGF.Props.C09Faults")
         if ctx.tier == "thorough":
             ctx.leanchecker("NGF.Props.C09")
             ctx.leanchecker("NGF.Props.C09Wiring")
+            ctx.leanchecker("NGF.Props.C09Faults")
+
+    fault_procs = _start_faults(ctx)
 
     # corpus first: (a) the judge still separates the recorded good and bad histories (guards the judge),
     # (b) the recorded operation lists are replayed on the real code
@@ -105,6 +109,7 @@ def run(ctx):
         ctx.broken(f"inconclusive cases (timeout = deadlock?): {dict(inconclusive)}")
 
     wiring_cov = _wiring(ctx)
+    faults_cov = _faults(ctx, fault_procs)
 
     # ---- coverage, measured on the generated cases -------------------------------------------------
     def ops_of(j):
@@ -163,6 +168,7 @@ def run(ctx):
         "sequential_length_histogram": dict(sorted(seq_len.items(), key=lambda kv: int(kv[0]))),
         "flush_group_count_histogram": dict(flush_sizes),
         "wiring": wiring_cov,
+        "api_failures": faults_cov,
     }, assumptions=[
         "Go: sync.Mutex gives atomic sections, so with both methods holding the lock for their whole body "
         "(pinned by LeaderFacts) interleavings are linearisations",
@@ -181,6 +187,98 @@ def run(ctx):
         "status never reaches Status().Update (counted as silent_requests); whether the statuses are the right ones for "
         "the cluster state is C07/C08's subject - here they are compared with those of a fresh handler",
     ])
+
+
+def _start_faults(ctx):
+    """Scripted per-resource API failures: the cases sleep in the real Updater's backoff (~2 s per persistently failing
+    resource and call), so they are started first and collected at the end."""
+    import subprocess
+    binp = os.path.join(getattr(ctx, "bindir", ""), "c09")
+    if not os.path.exists(binp):
+        return []
+    n_upd, n_wshards, n_wcases = (64, 6, 2) if ctx.tier == "quick" else (1200, 16, 12)
+    procs = [("upd", subprocess.Popen([binp, "-faults", "-seed", str(ctx.seed + 977), "-n", str(n_upd), "-maxops", "6"],
+                                      stdout=subprocess.PIPE, stderr=subprocess.PIPE, text=True))]
+    for i in range(n_wshards):
+        procs.append(("wiring", subprocess.Popen(
+            [binp, "-wiring", "-faults", "-seed", str(ctx.seed + 4001 + 7919 * i), "-n", str(n_wcases)],
+            stdout=subprocess.PIPE, stderr=subprocess.PIPE, text=True)))
+    return procs
+
+
+def _faults(ctx, procs):
+    import json
+    fexpect = [l.rstrip("\n").split("\t") for l in open(os.path.join(CORPUS, "fjudge_expect.tsv"))
+               if "\t" in l and not l.startswith("#")]
+    for (want, hist), g in zip(fexpect, ctx.driver("fjudge", [e[1] for e in fexpect])):
+        if want != g:
+            ctx.broken(f"fault judge regression: corpus history expected '{want}', judge says '{g}'",
+                       kind="obligation", replay={"judge_input": hist})
+    upd, wir, crashed = [], [], []
+    for kind, p in procs:
+        try:
+            out, err = p.communicate(timeout=1500)
+        except Exception:
+            p.kill()
+            out, err = "", "timeout"
+        if p.returncode != 0:
+            crashed.append(f"{kind}: exit {p.returncode}: {err.strip().splitlines()[0] if err.strip() else ''}")
+        (upd if kind == "upd" else wir).extend(out.splitlines())
+    for c in crashed[:3]:
+        ctx.broken(f"fault-stream harness run crashed ({c})")
+    incon = collections.Counter(l[2:][:80] for l in upd + wir if l.startswith("X "))
+    for why, c in incon.items():
+        ctx.broken(f"fault stream: inconclusive case ({c}x): {why}")
+    ucases = [_parts(l) for l in upd if not l.startswith("X ")]
+    ucases = [c for c in ucases if all(k in c for k in "MOJ")]
+    hist = collections.Counter()
+    nf = 0
+    for c, v in zip(ucases, ctx.driver("fjudge", [c["J"] for c in ucases])):
+        hist[v] += 1
+        if v == "bad-op":
+            ctx.broken("fault judge cannot decode a history", replay={"judge_input": c["J"]})
+        elif v != "ok":
+            clause = v.replace("fail ", "")
+            nf += 1
+            if nf <= 20:
+                ctx.finding(f"C09:api-failure:{clause}",
+                            f"with the status writes of some resources failing (script bad=...), a healthy resource's newest "
+                            f"status is not written / clause {clause} fails on the history restricted to healthy resources",
+                            {"mode": "faults", "judge_input": c["J"], "ops": c["M"], "successful_writes": c["O"]})
+    diffs = 0
+    for c, out in zip(ucases, ctx.driver("fmodel", [c["M"] for c in ucases])):
+        if out != c["O"]:
+            diffs += 1
+            if diffs <= 3:
+                ctx.broken(f"model (every healthy request is attempted) and implementation disagree under failures on "
+                           f"[{c['M']}]: impl {c['O']} / model {out}", replay={"mode": "faults", "ops": c["M"], "impl": c["O"], "model": out})
+    wcases = [_parts(l) for l in wir if not l.startswith("X ")]
+    wcases = [c for c in wcases if all(k in c for k in "JDS")]
+    whist = collections.Counter()
+    for c, v in zip(wcases, ctx.driver("wfjudge", [c["J"] for c in wcases])):
+        whist[v] += 1
+        if v == "bad-op":
+            ctx.broken("wiring fault judge cannot decode a history", replay={"judge_input": c["J"]})
+        elif v != "ok":
+            clause = v.replace("fail ", "")
+            ctx.finding(f"C09:api-failure:wiring:{clause}",
+                        f"real handler + updater with one resource whose status write keeps failing: clause {clause} fails for "
+                        f"the healthy resources", {"mode": "wiring-faults", "judge_input": json.loads(c["J"]),
+                                                   "dictionary": json.loads(c["D"])})
+    stats = collections.Counter()
+    for c in ucases:
+        for kv in c.get("S", "").split():
+            k, _, v = kv.partition("=")
+            stats[k] += int(v or 0)
+    wrej = sum(json.loads(c["S"]).get("rejected_attempts", 0) for c in wcases)
+    return {
+        "updater_cases": len(ucases), "updater_judge": dict(hist), "updater_model_agrees": len(ucases) - diffs,
+        "script": dict(stats),
+        "wiring_cases": len(wcases), "wiring_judge": dict(whist), "wiring_rejected_attempts": wrej,
+        "rule": "per-resource failure script: P = every Status().Update rejected, G = every Get fails, N = resource gone "
+                "(NotFound), T = first 1-2 attempts rejected; the real Updater retries with its real backoff; judge = the "
+                "unchanged C09 judges on the history restricted to resources not scripted P/G/N (transient ones must be written)",
+    }
 
 
 def _wiring(ctx):
